@@ -145,7 +145,7 @@ func checkC09(env *Env) []Violation {
 		for _, e := range env.Log.Events {
 			switch e.Kind {
 			case EvAllocC, EvAllocG, EvAllocT, EvAllocH:
-				if isInternalName(e.Name) {
+				if env.isInternal(e.Name) {
 					continue
 				}
 				k := e.Kind + "|" + idKey(e.Name, e.Tags)
